@@ -3,6 +3,7 @@
 package main
 
 import (
+	"encoding/hex"
 	"math"
 	"os"
 	"path/filepath"
@@ -345,6 +346,13 @@ func runeInfoLines(texts []string) []string {
 	return out
 }
 
+func hexDecode(t string) ([]byte, error) {
+	if t == "-" {
+		return nil, nil
+	}
+	return hex.DecodeString(t)
+}
+
 func fuzzyTargets(db *database.Database) []string {
 	ts := make([]string, len(db.Commands))
 	for i, c := range db.Commands {
@@ -433,6 +441,13 @@ func SearchCaseOps(cmds []database.Command, reqs []SearchReq, extra []string) []
 	for _, q := range reqs {
 		texts = append(texts, q.Query)
 		texts = append(texts, q.Opts.Platforms...)
+	}
+	for _, e := range extra { // byte strings carried by extra ops (e.g. `normq <hex>`)
+		for _, tok := range strings.Split(e, " ")[1:] {
+			if b, err := hexDecode(tok); err == nil {
+				texts = append(texts, string(b))
+			}
+		}
 	}
 	ops = append(ops, runeInfoLines(texts)...)
 	for i := range db.Commands {
@@ -529,6 +544,9 @@ func genSearch(r *Rng, tier string, idx int, args map[string]string) []string {
 		if r.Chance(1, 3) {
 			ops = append(ops, "tokens "+Hx(q))
 		}
+		if r.Chance(1, 2) {
+			ops = append(ops, "normq "+Hx(q))
+		}
 	}
 	for i := 0; i < len(db.Commands) && i < 6; i++ {
 		o := genOptions(r)
@@ -567,6 +585,8 @@ func execSearch(ops []string, mon *Mon) []string {
 			out = append(out, "ok")
 		case "ri", "idf", "nq", "pq", "ib", "cb", "tf", "fz":
 			out = append(out, "ok")
+		case "normq":
+			out = append(out, "nq "+Hx(strings.ToLower(strings.TrimSpace(UnHx(f[1])))))
 		case "tokens":
 			ts := database.VerifTokenize(UnHx(f[1]))
 			s := "tok"
